@@ -82,6 +82,18 @@ pub fn run(ctx: &Ctx) -> Report {
                 o.push(("iter", items(rd.iter_shapes(), cap)));
             }
             }
+            // the same file opened by path (no .shx next to it unless the manifest says so): the
+            // path-based constructors wrap the file in their own BufReader
+            if !idx_only && !with_shx {
+                let path = format!("{}/{}.shp", dir, name);
+                o.push(("path_read", all(shapefile::read_shapes(&path))));
+                if let Ok(mut rd) = ShapeReader::from_path(&path) {
+                    o.push(("path_iter", items(rd.iter_shapes(), cap)));
+                }
+                if typed >= 1 {
+                    o.push(("path_typed", for_type!(typed, T => all(shapefile::read_shapes_as::<_, T>(&path)))));
+                }
+            }
             if typed >= 1 {
                 if let Ok(rd) = ShapeReader::new(Src::new(shp.clone())) {
                     o.push(("typed", for_type!(typed, T => all(rd.read_as::<T>()))));
@@ -115,6 +127,25 @@ pub fn run(ctx: &Ctx) -> Report {
                     }
                     v.reverse();
                     o.push(("nth", J::Arr(v)));
+                }
+                // random access and iteration interleaved on ONE reader: the index alone must
+                // still decide where every record is read from
+                if let Ok(mut rd) = ShapeReader::with_shx(Src::new(shp.clone()), Src::new(x.clone())) {
+                    let n = rd.shape_count().unwrap_or(0).min(cap);
+                    if n > 0 {
+                        let _ = rd.read_nth_shape(n - 1);
+                        o.push(("iter_after_nth_last", items(rd.iter_shapes(), cap)));
+                        let first: Vec<_> = rd.iter_shapes().take(1).map(|r| r.is_ok()).collect();
+                        let _ = (first, rd.read_nth_shape(0));
+                        o.push(("iter_after_partial_iter_and_nth0", items(rd.iter_shapes(), cap)));
+                    }
+                }
+                // the same through the path-based constructor when the .shx sits next to the .shp
+                if !cfg!(miri) {
+                    let path = format!("{}/{}.shp", dir, name);
+                    if let Ok(mut rd) = ShapeReader::from_path(&path) {
+                        o.push(("path_iter_idx", items(rd.iter_shapes(), cap)));
+                    }
                 }
             }
             J::obj(o)
